@@ -73,6 +73,8 @@ type run struct {
 	bytesID     map[int]string // block id -> bytes that a vote signs
 	fixedLeader int
 	lmode       string
+	fetchLog    [][2]any        // block fetches of the current step: [block id, answered]
+	fetchMemo   map[hotstuff.Hash]bool // one answer per block and step
 	silentAfter hotstuff.ID // scenario: this replica falls silent once the others reach silentView
 	silentView  int
 }
@@ -262,11 +264,38 @@ func (r *run) proj(n *hx.Node) obj {
 		"cview": int(n.VS.CommittedBlock().View())}
 }
 
+// fetchFrom answers a block fetch of replica by from the other replicas' stores (one answer per block and step) and logs it.
+func (r *run) fetchFrom(by hotstuff.ID, h hotstuff.Hash, willing bool) (*hotstuff.Block, bool) {
+	if r.fetchMemo == nil {
+		r.fetchMemo = map[hotstuff.Hash]bool{}
+	}
+	if ans, seen := r.fetchMemo[h]; seen {
+		willing = ans
+	}
+	var found *hotstuff.Block
+	if willing {
+		for _, x := range r.nodes {
+			if x.ID != by {
+				if b, ok := x.BC.LocalGet(h); ok {
+					found = b
+					break
+				}
+			}
+		}
+	}
+	if _, seen := r.fetchMemo[h]; !seen {
+		r.fetchMemo[h] = found != nil
+		r.fetchLog = append(r.fetchLog, [2]any{r.idOfHash(h), found != nil})
+	}
+	return found, found != nil
+}
+
 // step runs f on node n and logs one line.
 func (r *run) step(kind string, n *hx.Node, ev obj, f func()) {
 	pre := r.proj(n)
 	c0, v0, s0, e0, a0 := len(n.Commits), len(n.ViewChanges), len(n.Signed), len(n.Executed), len(n.Aborted)
 	o0 := len(n.Outcomes)
+	r.fetchLog, r.fetchMemo = [][2]any{}, nil
 	panicked := ""
 	func() {
 		defer func() {
@@ -288,7 +317,7 @@ func (r *run) step(kind string, n *hx.Node, ev obj, f func()) {
 	}
 	line := obj{"op": "step", "kind": kind, "node": int(n.ID), "ev": ev, "pre": pre, "post": r.proj(n), "commits": commits, "vcs": vcs,
 		"signed": r.classifySigned(n, s0), "out": out, "exec": n.Executed[e0:], "abort": n.Aborted[a0:], "panic": panicked, "healed": r.healed,
-		"outcomes": n.Outcomes[o0:], "count": int(n.CIO.CmdCount()), "digest": fmt.Sprintf("%x", n.CIO.Hash().Sum(nil)[:6])}
+		"fetch": r.fetchLog, "outcomes": n.Outcomes[o0:], "count": int(n.CIO.CmdCount()), "digest": fmt.Sprintf("%x", n.CIO.Hash().Sum(nil)[:6])}
 	line["new"] = r.newBlk
 	r.newBlk = nil
 	r.o.emit(line)
@@ -755,17 +784,7 @@ func protoCmd(args []string) error {
 			// crash/silent faults instead of Byzantine ones
 		}
 		fetch := func(by hotstuff.ID, h hotstuff.Hash) (*hotstuff.Block, bool) {
-			if rng.Intn(100) >= r.fetchOK {
-				return nil, false
-			}
-			for _, x := range nodes {
-				if x.ID != by {
-					if b, ok := x.BC.LocalGet(h); ok {
-						return b, true
-					}
-				}
-			}
-			return nil, false
+			return r.fetchFrom(by, h, rng.Intn(100) < r.fetchOK)
 		}
 		for _, x := range nodes {
 			x.Fetch = fetch
